@@ -38,6 +38,19 @@ type Route struct {
 	Writes  bool     `json:"writes"`
 	Search  bool     `json:"search"`
 	Skip    string   `json:"skip,omitempty"` // reason the route is outside the data plane
+	// UnknownLimits: package constants named max* the handler refers to that this harness has no refinement for
+	UnknownLimits []string `json:"unknown_limits,omitempty"`
+}
+
+// limitConsts: the published request limits and the abstract limit each one stands for.
+// k, batch, dim and body are the limits the property names; ef is enforced next to them.
+var limitConsts = map[string]string{"maxK": "k", "maxBatchSize": "batch", "maxVectorDim": "dim", "maxEfSearch": "ef", "defaultMaxBodySize": "body"}
+
+// limitField: the body member a limit applies to.
+var limitField = map[string]string{"k": "k", "ef": "ef_search"}
+
+func isLimitName(n string) bool {
+	return len(n) > 3 && strings.HasPrefix(n, "max") && n[3] >= 'A' && n[3] <= 'Z'
 }
 
 const modulePath = "github.com/sanonone/kektordb"
@@ -161,6 +174,7 @@ type srcPkg struct {
 	owner map[*ast.TypeSpec]string // file name that declares it
 	// types with their own UnmarshalJSON accept JSON shapes the declaration does not show
 	unmarshalers map[string]bool
+	consts       map[string]bool // package-level constants
 }
 
 var pkgCache = map[string]*srcPkg{}
@@ -175,7 +189,7 @@ func loadPkg(dir string) (*srcPkg, error) {
 		return nil, err
 	}
 	p := &srcPkg{fset: fset, files: map[string]*ast.File{}, types: map[string]*ast.TypeSpec{}, funcs: map[string]*ast.FuncDecl{},
-		imps: map[string]map[string]string{}, owner: map[*ast.TypeSpec]string{}, unmarshalers: map[string]bool{}}
+		imps: map[string]map[string]string{}, owner: map[*ast.TypeSpec]string{}, unmarshalers: map[string]bool{}, consts: map[string]bool{}}
 	for _, e := range ents {
 		n := e.Name()
 		if e.IsDir() || !strings.HasSuffix(n, ".go") || strings.HasSuffix(n, "_test.go") {
@@ -203,6 +217,11 @@ func loadPkg(dir string) (*srcPkg, error) {
 					if ts, ok := s.(*ast.TypeSpec); ok {
 						p.types[ts.Name.Name] = ts
 						p.owner[ts] = n
+					}
+					if vs, ok := s.(*ast.ValueSpec); ok && d.Tok == token.CONST {
+						for _, nm := range vs.Names {
+							p.consts[nm.Name] = true
+						}
 					}
 				}
 			case *ast.FuncDecl:
@@ -468,6 +487,11 @@ func Routes(repo string) ([]Route, error) {
 			return true
 		})
 	}
+	for _, r := range routes {
+		if r.Group != "skip" && len(r.UnknownLimits) > 0 {
+			unmapped = append(unmapped, routeKey(r)+" enforces a limit this harness does not know: "+strings.Join(r.UnknownLimits, ","))
+		}
+	}
 	if len(unmapped) > 0 {
 		return nil, &Outdated{"routes registered in the current tree that this harness does not classify: " + strings.Join(unmapped, "; ")}
 	}
@@ -503,13 +527,10 @@ func analyseHandler(repo string, p *srcPkg, fd *ast.FuncDecl, r *Route) {
 				}
 			}
 		case *ast.Ident:
-			switch n.Name {
-			case "maxK":
-				r.Limits = appendOnce(r.Limits, "k")
-			case "maxBatchSize":
-				r.Limits = appendOnce(r.Limits, "batch")
-			case "maxVectorDim":
-				r.Limits = appendOnce(r.Limits, "dim")
+			if l, ok := limitConsts[n.Name]; ok && l != "body" {
+				r.Limits = appendOnce(r.Limits, l)
+			} else if isLimitName(n.Name) && p.consts[n.Name] {
+				r.UnknownLimits = appendOnce(r.UnknownLimits, n.Name)
 			}
 		case *ast.CallExpr:
 			sel, ok := n.Fun.(*ast.SelectorExpr)
@@ -567,7 +588,7 @@ func Limits(repo string) (map[string]int64, error) {
 	if err != nil {
 		return nil, err
 	}
-	want := map[string]string{"maxK": "k", "maxBatchSize": "batch", "maxVectorDim": "dim", "defaultMaxBodySize": "body"}
+	want := limitConsts
 	out := map[string]int64{}
 	for _, f := range p.files {
 		for _, d := range f.Decls {
@@ -620,4 +641,96 @@ func constInt(e ast.Expr) (int64, bool) {
 		}
 	}
 	return 0, false
+}
+
+// MetaKeys collects, from the current tree, the metadata / property keys the server package
+// treats specially: string literals used to index a map (x.Metadata["name"], props["reason"]),
+// literal key arguments of the get* helpers (getString(m, "language")) and the literal key lists
+// ([]string{"content", "text", ...}) it ranges over. Values stored under these keys are the ones
+// a handler may type-assert, format or sort by.
+func MetaKeys(repo string) ([]string, error) {
+	p, err := loadPkg(filepath.Join(repo, "internal", "server"))
+	if err != nil {
+		return nil, err
+	}
+	// the engine functions the handlers call inspect metadata too (timestamps, pins, layers ...)
+	pe, err := loadPkg(filepath.Join(repo, "pkg", "engine"))
+	if err != nil {
+		return nil, err
+	}
+	set := map[string]bool{}
+	keyLike := func(s string) bool {
+		if s == "" || len(s) > 40 {
+			return false
+		}
+		for _, c := range s {
+			if !(c == '_' || c == '-' || (c >= 'a' && c <= 'z') || (c >= 'A' && c <= 'Z') || (c >= '0' && c <= '9')) {
+				return false
+			}
+		}
+		return true
+	}
+	lit := func(e ast.Expr) (string, bool) {
+		b, ok := e.(*ast.BasicLit)
+		if !ok || b.Kind != token.STRING {
+			return "", false
+		}
+		v, err := strconv.Unquote(b.Value)
+		return v, err == nil && keyLike(v)
+	}
+	var files []*ast.File
+	for _, f := range p.files {
+		files = append(files, f)
+	}
+	for _, f := range pe.files {
+		files = append(files, f)
+	}
+	for _, f := range files {
+		ast.Inspect(f, func(n ast.Node) bool {
+			switch n := n.(type) {
+			case *ast.IndexExpr:
+				// reads only: m["k"] on the left of an assignment builds a response, it does not inspect stored data
+				if v, ok := lit(n.Index); ok {
+					set[v] = true
+				}
+			case *ast.CallExpr:
+				name := ""
+				switch fn := n.Fun.(type) {
+				case *ast.Ident:
+					name = fn.Name
+				case *ast.SelectorExpr:
+					name = fn.Sel.Name
+				}
+				if strings.HasPrefix(name, "get") && len(n.Args) >= 2 {
+					if v, ok := lit(n.Args[len(n.Args)-1]); ok {
+						set[v] = true
+					}
+				}
+			case *ast.CompositeLit:
+				if at, ok := n.Type.(*ast.ArrayType); ok && exprString(at.Elt) == "string" && len(n.Elts) > 0 && len(n.Elts) <= 16 {
+					var vals []string
+					for _, e := range n.Elts {
+						v, ok := lit(e)
+						if !ok {
+							return true
+						}
+						vals = append(vals, v)
+					}
+					for _, v := range vals {
+						set[v] = true
+					}
+				}
+			}
+			return true
+		})
+	}
+	var out []string
+	for k := range set {
+		out = append(out, k)
+	}
+	sort.Strings(out)
+	if len(out) < 5 {
+		return nil, &Outdated{"fewer than 5 metadata keys found in internal/server: the key collection no longer matches the source"}
+	}
+	return out, nil
 }
